@@ -148,6 +148,13 @@ def run_check(prop, tier, seed, replay=None):
         proof_problems.append("non-standard axioms: " + json.dumps(bad_axioms))
     if forbidden:
         proof_problems.append("forbidden tokens: " + "; ".join(forbidden[:10]))
+    recheck = None
+    if tier == "thorough" and ok_build:
+        mods = [t for t in prop.LEAN_TARGETS if ".Props." in t]
+        ok_rc, rc_out, rc_s = leanrun.leanchecker(mods)
+        recheck = {"cmd": "cd lean && lake env leanchecker " + " ".join(mods), "ok": ok_rc, "seconds": round(rc_s, 1)}
+        if not ok_rc:
+            proof_problems.append("leanchecker rejected the compiled proofs:\n" + rc_out)
 
     # ---- 2. correspondence + property oracle on the real code
     outcome = Outcome()
@@ -236,6 +243,7 @@ def run_check(prop, tier, seed, replay=None):
             "known_findings_reproduced": sorted(known_hit),
             "fixed_findings": [f.get("summary", "") for f in fixed],
             "build_s": round(build_s, 1),
+            "olean_recheck": recheck,
         },
         "assumptions": list(getattr(prop, "ASSUMPTIONS", [])),
         "wall_s": round(wall, 2),
